@@ -150,9 +150,63 @@ def identity_patches(py, proxy, rotation):
                 names[k] = rotation
             elif callable(v) and getattr(v, "__name__", None) and getattr(_np, getattr(v, "__name__", ""), None) is v and not isinstance(v, type):
                 names[k] = getattr(proxy, v.__name__)
+            elif callable(v) and _scipy_dense_solver(v) is not None and hasattr(proxy, "linalg"):
+                names[k] = _dense_solver_stub(_scipy_dense_solver(v), proxy, v)
         if names:
             out.append((mod, names))
     return out
+
+
+def _scipy_dense_solver(v):
+    """'lu_factor' / 'lu_solve' / 'solve' / 'inv' when `v` IS that function of scipy.linalg (whatever name it is imported under)"""
+    try:
+        import scipy.linalg as _sl
+    except Exception:
+        return None
+    for nm in ("lu_factor", "lu_solve", "solve", "inv"):
+        if getattr(_sl, nm, None) is v:
+            return nm
+    return None
+
+
+class _LuToken(tuple):
+    """what lu_factor returns in a symbolic world: (snapshot of the matrix at factorisation time, None)"""
+
+
+def _dense_solver_stub(kind, proxy, real):
+    """Assumed contracts (DESIGN section 4, LAPACK row): scipy.linalg.inv(A) = A^-1, solve(A, B) = A^-1 B,
+    lu_solve(lu_factor(A), B) = A^-1 B with A AS IT WAS when lu_factor was called (the factorisation is a copy: later writes
+    into A do not reach it), precondition det(A) != 0.  Float arguments go to the real function."""
+    import numpy as _np
+
+    def is_obj(*xs):
+        return any(_np.asarray(x).dtype == object for x in xs if not isinstance(x, _LuToken))
+
+    if kind == "lu_factor":
+        def lu_factor(a, *args, **kw):
+            if not is_obj(a):
+                return real(a, *args, **kw)
+            return _LuToken((_np.array(a, dtype=object, copy=True), None))
+        return lu_factor
+    if kind == "lu_solve":
+        def lu_solve(lu_and_piv, b, trans=0, *args, **kw):
+            if not isinstance(lu_and_piv, _LuToken):
+                return real(lu_and_piv, b, trans, *args, **kw)
+            a = lu_and_piv[0]
+            return proxy.linalg.solve(a.T if trans else a, _np.asarray(b, dtype=object))
+        return lu_solve
+    if kind == "solve":
+        def solve(a, b, *args, **kw):
+            if not is_obj(a, b) or args or any(kw.get(k_) for k_ in ("lower", "transposed")):
+                return real(a, b, *args, **kw)
+            return proxy.linalg.solve(_np.asarray(a, dtype=object), _np.asarray(b, dtype=object))
+        return solve
+
+    def inv(a, *args, **kw):
+        if not is_obj(a):
+            return real(a, *args, **kw)
+        return proxy.linalg.inv(_np.asarray(a, dtype=object))
+    return inv
 
 
 def dispatcher_patches(py, override=()):
